@@ -807,3 +807,29 @@ Proof.
   destruct (etcd_notify s i a Hr Ha Pa Hd Ca) as (s' & a' & H1 & H2 & H3 & _).
   exists s', a'. auto.
 Qed.
+
+(* the hypotheses of the statements above are satisfiable: a reachable state with
+   a holder (live lease), a try-locker about to try, and a waiter; and one where
+   the holder's lease has been revoked while it is in its critical section *)
+Example etcd_hyps_satisfiable :
+  exists s h c w, run step sys_init
+      [LNew 60; LNew 60; LNew 60; LCall 0 OpLock; LAcq 0; LCall 1 OpTry; LCall 2 OpLock; LAcq 2] = Some s /\
+    nth_error (s_cs s) 0 = Some h /\ holds s h = true /\
+    nth_error (s_cs s) 1 = Some c /\ c_pc c = Called OpTry /\
+    nth_error (s_cs s) 2 = Some w /\ c_pc w = Waiting /\ live (s_kv s) (c_lease w).
+Proof.
+  eexists. eexists. eexists. eexists. split; [vm_compute; reflexivity|].
+  split; [reflexivity|]. split; [vm_compute; reflexivity|]. split; [reflexivity|].
+  split; [reflexivity|]. split; [reflexivity|]. split; reflexivity.
+Qed.
+
+Example etcd_loss_satisfiable :
+  exists s a b, run step sys_init
+      [LNew 2; LNew 2; LCall 0 OpLock; LAcq 0; LCall 1 OpLock; LAcq 1; LRevoke 1; LPoll 1; LVerify 1] = Some s /\
+    nth_error (s_cs s) 0 = Some a /\ nth_error (s_cs s) 1 = Some b /\
+    c_pc a = Held /\ c_ctx a = CtxLive /\ dead (s_kv s) (c_lease a) /\ holds s b = true.
+Proof.
+  eexists. eexists. eexists. split; [vm_compute; reflexivity|].
+  split; [reflexivity|]. split; [reflexivity|]. split; [reflexivity|]. split; [reflexivity|].
+  split; vm_compute; reflexivity.
+Qed.
